@@ -67,9 +67,9 @@ Definition read_version (w : world) : N :=
 Definition dump_step (covered queries : nat) (s : world * dphase) : world * dphase :=
   let '(w, ph) := s in
   match ph with
-  | DBegin => ((if (0 <? covered)%nat then set_snap w (Some None) else w), DRead queries)
+  | DBegin => ((if Nat.ltb 0 covered then set_snap w (Some None) else w), DRead queries)
   | DRead (S j) =>
-      if (queries - S j <? covered)%nat then
+      if Nat.ltb (queries - S j) covered then
         let v := read_version w in
         let w1 := match snap w with Some None => set_snap w (Some (Some v)) | _ => w end in
         (emit w1 v, DRead j)
